@@ -42,6 +42,8 @@ pub struct OutCfg {
     /// binary, double, bos, counter, frozen counter, analog, aos, octet
     pub event_cfg: [u16; 8],
     pub class_zero_octets: bool,
+    /// class 0 membership of the seven other types (binary, double, bos, counter, frozen counter, analog, aos); default all true
+    pub class_zero: [bool; 7],
     pub decode: usize,
     pub discard: bool,
     pub zero_len_strings: bool,
@@ -68,6 +70,7 @@ impl Default for OutCfg {
             max_controls: None,
             event_cfg: [100; 8],
             class_zero_octets: false,
+            class_zero: [true; 7],
             decode: 0,
             discard: false,
             zero_len_strings: false,
@@ -575,6 +578,13 @@ pub fn make_config(c: &OutCfg) -> OutstationConfig {
     config.max_read_request_headers = c.max_read_headers;
     config.max_controls_per_request = c.max_controls;
     config.class_zero.octet_string = c.class_zero_octets;
+    config.class_zero.binary = c.class_zero[0];
+    config.class_zero.double_bit_binary = c.class_zero[1];
+    config.class_zero.binary_output_status = c.class_zero[2];
+    config.class_zero.counter = c.class_zero[3];
+    config.class_zero.frozen_counter = c.class_zero[4];
+    config.class_zero.analog = c.class_zero[5];
+    config.class_zero.analog_output_status = c.class_zero[6];
     config
 }
 
